@@ -238,9 +238,10 @@ class J1939_22:
                     else:
                         # trigger sending
                         self._multi_pg_snd_buffer[hash]['deadline'] = time.time()
-                        self.__job_thread_wakeup()
                         # get next buffer
                         session += 1
+                # a buffer was created or its deadline changed: let the job thread recalculate its sleep time
+                self.__job_thread_wakeup()
         else:
             # if the PF is between 0 and 239, the message is destination dependent when pdu_specific != 255
             # if the PF is between 240 and 255, the message can only be broadcast
